@@ -34,6 +34,11 @@ weights, stride are SYMBOLIC.  The extent of the detector box fixes the trip cou
 reductions and is ENUMERATED (concrete small extents, listed in the task keys); option switches
 (reduce_volume, keep_all_components, direction, orientation, axes, component subsets, material
 tiers, uniform / non-uniform grid, inverse) are enumerated.
+
+Placing a detector must succeed for every option combination (obligation
+`place_on_grid_succeeds/...`): a shape error raised by the real place_on_grid is reported as a
+refuted obligation (and replayed on the real code), the identities of the variants that could be
+placed are still checked.
 """
 
 from __future__ import annotations
@@ -88,7 +93,7 @@ ASSUMPTIONS = [
     "materials: inverse permittivity/permeability entries > 0 for the 1- and 3-component tiers; full tensors unconstrained except invertibility being irrelevant (same tensor on both sides)",
     "component tuples are given in canonical order (Ex,Ey,Ez,Hx,Hy,Hz)",
 ]
-MIN_OBLIGATIONS = {"quick": 600, "thorough": 2500}
+MIN_OBLIGATIONS = {"quick": 4000, "thorough": 20000}
 LEVEL_TEXT = (
     "Deductive proof of every identity of the property between the records of real detectors (real place_on_grid and update) for ALL "
     "field, material, state, cell-width / spacing values, grid shapes, box positions, time steps and time tables; the extent of the detector "
@@ -529,40 +534,8 @@ def _configs(tier, seed):
     return out
 
 
-def _grouped(configs, chunk):
-    """Every configuration is a few hundred milliseconds of work but a worker process costs seconds
-    to start (jax / fdtdx imports): configurations of one kind are run back to back inside one task,
-    each under its own obligation-name prefix (no configuration forks, so nothing is re-executed)."""
-    by_kind = {}
-    for label in configs:
-        by_kind.setdefault(label.split("/")[0], []).append(label)
-    out = {}
-    for kind, labels in by_kind.items():
-        for gi in range(0, len(labels), chunk):
-            group = labels[gi : gi + chunk]
-
-            def body(c, inp, group=group):
-                for label in group:
-                    orig = c.prove
-
-                    def pr(name, goal, *a, _o=orig, _p=label + ":", **kw):
-                        return _o(_p + name, goal, *a, **kw)
-
-                    inp.scalars.clear()
-                    inp.arrays.clear()
-                    inp.notes.clear()
-                    c.prove = pr
-                    try:
-                        configs[label](c, inp)
-                    finally:
-                        c.prove = orig
-
-            out[f"{kind}/{gi // chunk:02d}"] = Task(body)
-    return out
-
-
 def tasks(tier, seed):
-    return _grouped(_configs(tier, seed), 20 if tier == "quick" else 40)
+    return L.grouped(_configs(tier, seed), 20 if tier == "quick" else 40)
 
 
 # ---------------------------------------------------------------------------------------
